@@ -79,8 +79,9 @@ def encode_cobs(msg):
         if b != 0:
             if code >= 254:
                 ret.append(b)
-                ret[len(ret) - code] = code + 1
+                ret[len(ret) - code - 1] = code + 1
                 code = 1
+                ret.append(code)
                 continue
             ret.append(b)
             code = code + 1
